@@ -1562,6 +1562,10 @@ def eval_under(m, v):
     return v
 
 
+class ReplayDone(BaseException):
+    """native replay of a recorded violation reached the end of the recording after the failure was observed"""
+
+
 class ConcreteEngine:
     """native replay: the same harness body, plain Python values taken from a model"""
     mode = 'native'
@@ -1609,6 +1613,11 @@ class ConcreteEngine:
             return 0
         # choices are recorded interleaved with branch decisions; the harness API hands the list of
         # *choice* decisions only
+        if self.cpos >= len(self.decisions):
+            if self.failed:
+                # replay of a recorded violation: the recording stops at the failed check, the run may go on
+                raise ReplayDone()
+            raise HarnessError('native replay: ran out of recorded choices')
         d = self.decisions[self.cpos]
         self.cpos += 1
         return d
